@@ -12,7 +12,9 @@ CONSTANTS
   Ends = {"close", "forget"}
   Writers = TRUE
   MaxOps = 2
+  Parking = FALSE
   ResetOnOpen = TRUE
+  ResetOnStart = TRUE
   RegisterOnReach = FALSE
   EndChecksOnError = FALSE
   LogCalls = TRUE
